@@ -1,14 +1,23 @@
 import CookModel.Analysis.Collector
+import CookModel.Lemmas.Blocks
+import CookModel.Lemmas.MetaAgree
+import CookModel.Lemmas.CollectorAgree
 /-
   C14  Metadata-only parsing agrees with full parsing.
 
-  Proved here: with front matter the metadata-only scanner emits exactly the front-matter event
-  the full parser starts with (neither treats `>>` lines as metadata then), and without front
-  matter every block the metadata-only scanner hands to `metadata_entry` starts with `>>` and
-  contains no newline token, i.e. it is a `>>` line as the full splitter isolates it.  The
-  agreement of the resulting metadata (whenever both analyses have output) is decided per run on
-  the implementation (oracle: both outputs' metadata equal) and against the model, under all
-  extension patterns.
+  Proved here, for every input, character table, extension set and environment:
+  * token level (`C14_meta_blocks_eq`, no side condition): the slices the metadata-only scanner
+    hands to `metadata_entry` are exactly the blocks of the full splitter that start with `>>`;
+  * event level (`C14_metadata_events_agree`): without front matter the `Metadata` events of the
+    full pull parser are exactly the events of the metadata-only parser — no other block parser
+    ever emits a metadata event and `metadata_entry` does not depend on the event queue;
+  * analysis level (`C14_agree_partial`): without front matter, whenever both analyses have output
+    their metadata map, std-key locations, servings and old-style spans are equal — non-metadata
+    events never touch that part of the collector, and a metadata event's effect on it depends only
+    on it;
+  * with front matter the metadata-only scanner emits exactly the front-matter event the full parser
+    starts with (`C14_front_matter_same_event`); the agreement of the analyses in that case is
+    decided per run (oracle: both outputs' metadata equal) and against the model.
 -/
 namespace Cook
 variable {α : Type} [Arith α]
@@ -69,5 +78,142 @@ theorem C14_front_matter_same_event (cs : CharSpec) (ext : Ext) (input : List Ch
     (pullMetaEvents (α := α) cs ext input).2 = none := by
   unfold pullMetaEvents
   simp [h]
+
+/-- `meta_blocks_eq`, for EVERY token list and with NO side condition: the sequence of token slices
+    the metadata-only scanner (`next_metadata_block`) hands to `metadata_entry` is exactly the
+    sequence of those blocks of the full splitter (`next_block`) whose first token is `>>`, in the
+    same order.  (A `>>` at the start of a line is always its own single-line block in the full
+    splitter; `>>` after leading whitespace, after an escaped newline or inside a line is in neither
+    list; a `>>` line directly after a step line ends that step's block; the last line needs no
+    newline.) -/
+theorem C14_meta_blocks_eq (ts : List Tok) :
+    metaBlocks (ts.length + 1) .newline ts =
+    (allBlocks (ts.length + 1) ts).filter (fun b => b.head?.map (·.kind) == some .metaStart) := by
+  have h := blocks_meta_eq ts.length ts (Nat.le_refl _)
+  unfold metaBlocksOf at h
+  rw [h]
+  apply List.filter_congr
+  intro b _
+  unfold isMetaBlock
+  cases b.head? with
+  | none => rfl
+  | some t => simp
+
+/-- hence every block of the full splitter that starts with `>>` is one line without its newline:
+    `parse_block` sees the same tokens for a metadata entry as `next_metadata_block` gives -/
+theorem C14_full_splitter_meta_block_is_line (ts : List Tok) :
+    ∀ b ∈ allBlocks (ts.length + 1) ts, b.head?.map (·.kind) = some .metaStart →
+      (∀ t ∈ b, t.kind ≠ .newline) ∧ b ∈ metaBlocks (ts.length + 1) .newline ts := by
+  intro b hb hh
+  have hm : b ∈ metaBlocks (ts.length + 1) .newline ts := by
+    rw [C14_meta_blocks_eq]
+    exact List.mem_filter.2 ⟨hb, by simp [hh]⟩
+  exact ⟨(C14_meta_blocks_are_meta_lines _ _ _ b hm).2, hm⟩
+
+/-- without front matter the metadata-only parser runs `metadata_entry` over exactly the `>>`
+    blocks of the full splitter on the same token stream -/
+theorem C14_meta_scanner_runs_on_full_blocks (cs : CharSpec) (ext : Ext) (input : List Char)
+    (h : parseFrontmatter cs input = none) :
+    pullMetaEvents (α := α) cs ext input =
+      (((allBlocks ((lex cs input).length + 1) (lex cs input)).filter
+          (fun b => b.head?.map (·.kind) == some .metaStart)).foldl
+        (fun acc b => runMetaBlock cs ext b acc.1 acc.2) (#[], none)) := by
+  unfold pullMetaEvents
+  simp only [h]
+  rw [C14_meta_blocks_eq]
+
+/-- In the full parser only a block that starts with `>>` can contribute a metadata event: for any
+    other block (step, text, section; any `old_style_metadata` flag) `parse_block` leaves the
+    metadata events of the queue as they were. -/
+theorem C14_other_blocks_make_no_metadata (cs : CharSpec) (ext : Ext) (o : Bool) (b : List Tok)
+    (evs : Array (Ev α)) (p : Option String) (hb : b ≠ [])
+    (hh : b.head?.map (·.kind) ≠ some .metaStart) :
+    (runBlock (α := α) cs ext o b evs p).1.toList.filter Ev.isKey = evs.toList.filter Ev.isKey := by
+  rw [runBlock_evs cs ext o b evs p hb]
+  apply parseBlock_other_head
+  cases b with
+  | nil => contradiction
+  | cons t r => simpa using hh
+
+/-- On a `>>` block both parsers add the same metadata event (or none): the one `metadata_entry`
+    parses from the block's tokens, independently of what is already in the queue. -/
+theorem C14_meta_block_same_entry (cs : CharSpec) (ext : Ext) (b : List Tok)
+    (evs evs' : Array (Ev α)) (p p' : Option String) (hb : b ≠ [])
+    (hh : b.head?.map (·.kind) = some .metaStart) :
+    ∃ new : List (Ev α),
+      (runBlock (α := α) cs ext true b evs p).1.toList.filter Ev.isKey = evs.toList.filter Ev.isKey ++ new ∧
+      (runMetaBlock (α := α) cs ext b evs' p').1.toList.filter Ev.isKey = evs'.toList.filter Ev.isKey ++ new := by
+  refine ⟨newOf (entryOf (α := α) cs ext b), ?_, runMetaBlock_meta cs ext b evs' p' hb⟩
+  have h := runBlock_meta cs ext b evs p hb
+  have hm : isMetaBlock b = true := by
+    cases b with
+    | nil => contradiction
+    | cons t r => simpa [isMetaBlock] using hh
+  rw [hm] at h
+  exact h
+
+/-- `C14_agree` at the level of parser events, for EVERY input without front matter, every
+    character table and every extension set: the `Metadata` (and front matter) events produced by the full
+    `PullParser` are exactly the events produced by the metadata-only parser
+    (`into_meta_iter`), same keys, same values, same spans, same order.  (What the analysis makes of
+    them is the same code in both cases and is compared per run.) -/
+theorem C14_metadata_events_agree (cs : CharSpec) (ext : Ext) (input : List Char)
+    (h : parseFrontmatter cs input = none) :
+    (pullEvents (α := α) cs ext input).1.toList.filter Ev.isKey =
+    (pullMetaEvents (α := α) cs ext input).1.toList.filter Ev.isKey :=
+  metadata_events_agree cs ext input h
+
+/-- `C14_agree` for inputs WITHOUT front matter, for every environment (character table, extension
+    set, converter, std-metadata checker): whenever both `parse` and `parse_metadata` have output,
+    the metadata parts of the two results are equal — the `>>` metadata map (same keys, same values,
+    same insertion order), the locations of the standard keys, the parsed servings, the spans of
+    the deprecated old-style entries and the (absent) front matter.
+    Missing for the full clause (hence `_partial`): inputs WITH front matter (there the
+    metadata-only parser stops after the front-matter event while the full parser still processes
+    `>> [config]: …` lines when the MODES extension is on; what is proved for that case is
+    `C14_front_matter_same_event`). -/
+theorem C14_agree_partial (env : Env) (input : Str) (h : parseFrontmatter env.cs input = none)
+    (r1 r2 : Col α) (h1 : (parseRecipe (α := α) env input).output = some r1)
+    (h2 : (parseMetadata (α := α) env input).output = some r2) :
+    r1.metaMap = r2.metaMap ∧ r1.metaLocs = r2.metaLocs ∧ r1.servings = r2.servings ∧
+    r1.oldStyleUsed = r2.oldStyleUsed ∧ r1.frontMatter = r2.frontMatter ∧ r1.oldStyle = r2.oldStyle := by
+  have e := analysis_agree env input h r1 r2 h1 h2
+  exact ⟨congrArg MS.metaMap e, congrArg MS.metaLocs e, congrArg MS.servings e,
+    congrArg MS.oldStyleUsed e, congrArg MS.frontMatter e, congrArg MS.oldStyle e⟩
+
+/-- the pieces of that proof, as statements about the collector: (1) an event that is neither
+    `Metadata` nor front matter leaves the metadata part of the collector state untouched … -/
+theorem C14_other_events_keep_metadata (env : Env) (input : Str) (ev : Ev α) (h : ev.isKey = false)
+    (s : Col α) : ((processEvent env input ev s).2).ms = s.ms :=
+  (pf_processEvent s.ms env input ev h).run s rfl
+
+/-- … and (2) what a `Metadata` event does to the metadata part depends only on that part (not on
+    the steps, ingredients, modes or diagnostics collected so far). -/
+theorem C14_metadata_event_depends_on_metadata_only (env : Env) (k v : Text) (s s' : Col α)
+    (h : s.ms = s'.ms) :
+    ((processEvent (α := α) env [] (.metadata k v) s).2).ms = ((processEvent (α := α) env [] (.metadata k v) s').2).ms :=
+  ((sm_metadataA env k v).run s s' h).2
+
+/-! non-vacuity of "no front matter": an old-style metadata line followed by a step -/
+example : parseFrontmatter ⟨fun c => c == ' ', fun _ => false, fun _ => true, fun c => c == ' ' || c == '\n', fun _ => true⟩
+    ">> a: b\nx".toList = none := by decide
+
+/-! the corner cases, on concrete streams (both sides computed):
+    leading whitespace before `>>` (not metadata in either scanner); a `>>` line right after a
+    step line without a blank line; a `>>` after an escaped newline (an `escaped` token is not a
+    newline token); a last `>>` line without trailing newline -/
+example :
+    let ts : List Tok := [⟨.ws, [' '], 0⟩, ⟨.metaStart, ['>', '>'], 1⟩, ⟨.word, ['a'], 3⟩, ⟨.newline, ['\n'], 4⟩,
+      ⟨.word, ['s'], 5⟩, ⟨.newline, ['\n'], 6⟩,
+      ⟨.metaStart, ['>', '>'], 7⟩, ⟨.word, ['k'], 9⟩, ⟨.newline, ['\n'], 10⟩,
+      ⟨.word, ['b'], 11⟩, ⟨.escaped, ['\\', '\n'], 12⟩, ⟨.metaStart, ['>', '>'], 14⟩, ⟨.newline, ['\n'], 16⟩,
+      ⟨.metaStart, ['>', '>'], 17⟩, ⟨.word, ['z'], 19⟩]
+    metaBlocks (ts.length + 1) .newline ts =
+      [[⟨.metaStart, ['>', '>'], 7⟩, ⟨.word, ['k'], 9⟩], [⟨.metaStart, ['>', '>'], 17⟩, ⟨.word, ['z'], 19⟩]] ∧
+    allBlocks (ts.length + 1) ts =
+      [[⟨.ws, [' '], 0⟩, ⟨.metaStart, ['>', '>'], 1⟩, ⟨.word, ['a'], 3⟩, ⟨.newline, ['\n'], 4⟩, ⟨.word, ['s'], 5⟩],
+       [⟨.metaStart, ['>', '>'], 7⟩, ⟨.word, ['k'], 9⟩],
+       [⟨.word, ['b'], 11⟩, ⟨.escaped, ['\\', '\n'], 12⟩, ⟨.metaStart, ['>', '>'], 14⟩],
+       [⟨.metaStart, ['>', '>'], 17⟩, ⟨.word, ['z'], 19⟩]] := by decide
 
 end Cook
